@@ -144,6 +144,10 @@ func init() {
 									cb.RecordFailure()
 									cb.Metrics().FailureRate()
 									cbt.RecordSuccess()
+									cb.RecordResult("ok")
+									cb.RecordError(nil)
+									cbt.RecordResult("bad")
+									cbt.RecordError(errX)
 									if bh.TryAcquirePermit() {
 										bh.ReleasePermit()
 									}
